@@ -39,6 +39,38 @@ CLAIMS = {
        "uninterpreted pure functions; f-string texts are dropped.",
   technique="contract-based deductive verification (sidecar contracts, ghost input/output traces for the generator, z3/cvc5)",
   design_ref="DESIGN.md section 6, C12"),
+ "C18": dict(
+  category="proof",
+  text="Contract-based deductive proof over the real source, for all record arrays, that record_links connects exactly the time-adjacent "
+       "fragments of one pulse in one channel (next_record is the inverse of previous_record, nothing else is linked), that "
+       "zero_out_of_bounds and cut_baseline zero exactly the stated samples and leave every other sample and all metadata untouched, and "
+       "that overlap_indices is the set-theoretic intersection. find_hits (all fields), cut_outside_hits, baseline and integrate are "
+       "covered by bounded stand-ins against their direct definitions (labelled bounded, not counted as proved).",
+  note="Not proved: _find_hits / _cut_outside_hits (buffer-yield mechanics of growing_result, slice copies) and the float fields. Trusted: "
+       "pyvc, z3/cvc5, integers mathematical (int16 samples), numba faithful (each stand-in input also runs through .py_func).",
+  technique="contract-based deductive verification (loop invariants over record arrays, frame clauses) + bounded stand-ins for 4 functions",
+  design_ref="DESIGN.md section 6, C18"),
+ "C19": dict(
+  category="proof",
+  text="Contract-based deductive proof (prefix-sum ghost function over the reals) that symmetric_moving_average returns the mean of "
+       "a[max(0,i-w)..min(n-1,i+w)] for every waveform and wing width; gap-threshold clustering of find_peaks, area conservation of the "
+       "hits->peaks->sum_waveform chain, replace_merged and the tiling of split peaks are bounded stand-ins against direct definitions "
+       "(labelled bounded). Known finding F10 (overlap after a max_duration cut) is reported as KNOWN-FINDING.",
+  note="Only one function is proved; the clustering / summing / merging / splitting clauses rest on bounded stand-ins; area-fraction times, "
+       "widths and highest-density regions are not covered. Floats are modelled as reals in the proof.",
+  technique="contract-based deductive verification (ghost prefix sums, z3) + bounded stand-ins",
+  design_ref="DESIGN.md section 6, C19"),
+ "C10": dict(
+  category="proof",
+  text="Contract-based deductive proof over the real source that time-range selection commutes with chunking: apply_time_range (via the "
+       "proved Chunk.split contract) keeps a contiguous run of rows and drops only rows that neither the fully-contained nor the touching "
+       "predicate selects; a chunk the loader prunes by its metadata range holds no selected row (lemma); apply_selection keeps exactly the "
+       "rows satisfying the mode's predicate, in order, and rejects unknown modes. Hence select(range, loaded rows) = select(range, all rows) "
+       "for every law-abiding chunking.",
+  note="Not covered: selection strings / callables (numexpr), keep/drop columns, seconds and time_within conversion, Context.get_iter's "
+       "no-chunk error, composition with the processors; boolean-mask indexing is a trusted library model.",
+  technique="contract-based deductive verification (modular: Chunk.split contract at call sites; lemma over the contracts)",
+  design_ref="DESIGN.md section 6, C10"),
 }
 
 NA_REASON = "check not built yet (see DESIGN.md section 6 for the plan)"
